@@ -106,6 +106,14 @@ def showdown_step(ctx: Any, st: Any, tag: str) -> None:
 def step(ctx: Any, st: Any, script: str, pos: list, sym_show: bool) -> None:
     """one step of the driver (mechanical steps default, showdown symbolic, decisions scripted)."""
     if at_player_decision(st):
+        if st.stander_pat_or_discarder_index is not None:
+            # a refused operation must leave no trace (neither in the state nor in the log)
+            h = st.hole_cards[st.stander_pat_or_discarder_index]
+            if h and h.count(h[0]) == 1:
+                try:
+                    st.stand_pat_or_discard((h[0], h[0]))
+                except ValueError:
+                    pass
         ch = script[pos[0]] if pos[0] < len(script) else 'c'
         pos[0] += 1
         decide(st, ch)
@@ -184,9 +192,16 @@ def shared_containers(a: Any, b: Any) -> list:
                 walk(getattr(x, f.name), acc, f'{path}.{f.name}')
     ia: dict = {}
     ib: dict = {}
-    for f in dataclasses.fields(State):
-        walk(getattr(a, f.name), ia, f.name)
-        walk(getattr(b, f.name), ib, f.name)
+    names = {f.name for f in dataclasses.fields(State)} | set(vars(a)) | set(vars(b))
+    # every attribute reachable from an instance, class-level containers included
+    for klass in type(a).__mro__:
+        for name, val in vars(klass).items():
+            if isinstance(val, (list, deque, set, dict)) and not name.startswith('__'):
+                names.add(name)
+    for name in sorted(names):
+        if hasattr(a, name) and hasattr(b, name):
+            walk(getattr(a, name), ia, name)
+            walk(getattr(b, name), ib, name)
     return [ia[k] for k in ia if k in ib]
 
 
@@ -216,10 +231,17 @@ def h_copy(ctx: Any, code: str, n: int, script: str, stacks: Any, mode: str = 'C
     ctx.check(not sh, 'copy-shares-mutable-container', lambda: f'{sh[:5]}')
     ctx.check(same(snapshot(a), snapshot(c)), 'copy-differs')
     before = snapshot(a)
+    queries = lambda s: tuple(bool(getattr(s, q)()) for _, q in MECH)  # noqa: E731
+    q_before = queries(a)
     pos_c = list(pos)
     play_all(ctx, c, script, False, pos=pos_c)
     ctx.check(same(before, snapshot(a)), 'operating-on-copy-changed-original')
-    play_all(ctx, a, script, False, pos=pos)
+    ctx.check(queries(a) == q_before, 'operating-on-copy-changed-what-the-original-offers')
+    try:
+        play_all(ctx, a, script, False, pos=pos)
+    except Exception as e:
+        C.reraise_control(e)
+        ctx.fail('original-broken-after-operating-on-copy', f'{type(e).__name__}: {e}')
     ctx.check(same(snapshot(a), snapshot(c)), 'copy-and-original-diverge')
     ctx.check(len(a.operations) == len(c.operations), 'copy-log-length')
     ctx.check(same(snapshot(a), snapshot(dry)), 'not-deterministic')
